@@ -36,6 +36,7 @@ class C09(Check):
         for hv in case["hashvars"]:
             hv[1] = rng.choice([0.29, 2.5, 0]) if hv[0] == "x" else rv(rng, hv[0])        # declared default (rand_value favours the ends of the range)
             hv[2] = None if rng.random() < 0.4 else (rng.choice([1.15, 0.57, 7.0]) if hv[0] == "x" else rv(rng, hv[0]))   # written from Python
+        case["table_last"] = rng.random() < 0.5
         keys = [[rv(rng, f) for f in case["key"]] for _ in range(3)]
         for k in keys[:rng.randint(0, 2)]:
             case["entries"].append([k, [rv(rng, f) for f in case["value"]]])
@@ -56,7 +57,10 @@ class C09(Check):
                 j = rng.randrange(len(case["value"]))
                 case["ops"].append(["dlookup", rng.choice(keys), j, rng.choice(["read", "write"]), rv(rng, case["value"][j])])
             else:
-                case["ops"].append(["dupdate", rng.choice(keys), [rv(rng, f) for f in case["value"]]])
+                # optionally a hash variable is read between filling table.value and update() (its temporaries
+                # must not share stack bytes with the key / value areas)
+                mid = rng.randrange(len(case["hashvars"])) if case["hashvars"] and rng.random() < 0.5 else None
+                case["ops"].append(["dupdate", rng.choice(keys), [rv(rng, f) for f in case["value"]], mid])
         return case
 
     def gen_cases(self):
@@ -66,7 +70,9 @@ class C09(Check):
         return [{"hashvars": [["I", 7, None], ["q", -3, 11]], "key": ["I", "B"], "value": ["q", "I", "B"], "size": 2,
                  "entries": [[[1, 8], [5, 6, 7]]],
                  "ops": [["hread", 0], ["hread", 1], ["hwrite", 0, 99], ["dlookup", [1, 8], 1, "write", 77], ["dlookup", [2, 2], 0, "read", 0],
-                         ["dupdate", [3, 3], [1, 2, 3]]]}]
+                         ["dupdate", [3, 3], [1, 2, 3]]]},
+                {"hashvars": [["I", 7, None], ["B", 3, None]], "key": ["I"], "value": ["I"], "size": 4, "entries": [], "table_last": True,
+                 "ops": [["dupdate", [5], [77], 0], ["dupdate", [6], [78], 1]]}]
 
     def prepare(self, cases):
         terms, idx = [], []
@@ -121,6 +127,13 @@ class C09(Check):
                     ns[f"mark{j}"] = LocalVar("B")
                 elif op[0] == "dupdate":
                     ns[f"ret{j}"] = LocalVar("q")
+                    if len(op) > 3 and op[3] is not None:
+                        f = case["hashvars"][op[3]][0]
+                        ns[f"mid{j}"] = LocalVar("x" if f == "x" else ("q" if f.islower() else "Q"))
+            if case.get("table_last", False):
+                # declaration order decides the stack layout: the Dict is the last declaration, so the
+                # program's temporaries are allocated right below its value area
+                ns["table"] = ns.pop("table")
             P = type("P", (EBPF,), ns)
             e = P(ProgType.XDP, "GPL")
             for j, op in enumerate(case["ops"]):
@@ -146,6 +159,8 @@ class C09(Check):
                         setattr(e.table.key, f"k{i}", kv)
                     for i, vv in enumerate(op[2]):
                         setattr(e.table.value, f"v{i}", vv)
+                    if len(op) > 3 and op[3] is not None:
+                        setattr(e, f"mid{j}", getattr(e, f"h{op[3]}"))
                     e.table.update()
                     setattr(e, f"ret{j}", e.r0)
             e.r0 = 2
@@ -225,7 +240,7 @@ class C09(Check):
 
     def holds(self, case, o):
         if isinstance(o, Err):
-            if o.code == 6 and ("no value" in o.what or "not enough registers" in o.what):
+            if o.code == 6 and "not enough registers" in o.what:
                 return True
             return f"{o.what}; {self.describe(case)}"
         what = f"; case {self.describe(case)}"
